@@ -233,6 +233,63 @@ def check_branches(chk, it, tabs):
                    'wasmCWriteBranchTableExpr:value')
 
 
+def check_branch_family(chk, it, tabs):
+    """R03.2/R03.4 over a family: branch instruction x nesting depth x number of extra operands below the value x result type"""
+    L = tabs['letter']
+    n = 0
+    for t_ in ('i32', 'i64', 'f32', 'f64'):
+        for depth in (0, 1, 2):
+            for extras in (0, 1, 2):
+                for kind in ('br', 'br_if', 'br_table', 'return'):
+                    items = [('block', {'imm0': V[t_]})] + [('block', {'imm0': oracle.BLOCKTYPE_VOID})] * depth
+                    items += [const('i64', 5)] * extras + [const(t_, 3)]
+                    if kind == 'br':
+                        items.append(('br', {'imm0': depth}))
+                    elif kind == 'br_if':
+                        items += [const('i32', 1), ('br_if', {'imm0': depth})]
+                    elif kind == 'br_table':
+                        items += [const('i32', 1), ('br_table', {'labels': [depth, depth], 'default': depth})]
+                    else:
+                        items.append('return')
+                    # close the constructs again (dead code after br / br_table / return; live after br_if: drop the operands)
+                    if kind == 'br_if':
+                        items += ['drop'] * (extras + 1)
+                    items += ['end'] * depth
+                    if kind == 'br_if' or depth > 0:
+                        items.append(const(t_, 9))
+                    items.append('end')
+                    labels = [(0, 0, t_)] if kind == 'return' else None
+                    stack = [] if kind == 'return' else ['i64']
+                    try:
+                        tpl = one(chk, run_script(it, script(*items), stack, labels=labels), '%s-family' % kind)
+                    except emit.ScriptMismatch as e:
+                        raise AnalysisBroken('branch family: %s' % e)
+                    if tpl is None:
+                        continue
+                    n += 1
+                    flat = re.sub(r'\s+', '', tpl.text())
+                    base = 0 if kind == 'return' else 1           # entry height of the target label = its result slot
+                    if kind == 'return':
+                        # the outer block of the script sits on top of the function label: its result slot is 0 as well
+                        pass
+                    src = base + extras
+                    tgt_label = 'L0' if kind == 'return' else 'L1'
+                    lt = L[t_]
+                    copies = re.findall(r's%s(\d+)=s%s(\d+);goto%s;' % (lt, lt, tgt_label), flat)
+                    plain = len(re.findall(r'goto%s;' % tgt_label, flat))
+                    label = '%s[%s,depth=%d,extras=%d]' % (kind, t_, depth, extras)
+                    if extras == 0:
+                        ok = plain >= 1 and all(a == b for a, b in copies)
+                    else:
+                        ok = plain >= 1 and len(copies) == plain and all(int(a) == base and int(b) == src for a, b in copies)
+                    chk.expect(ok, 'R03.2', 'carry:' + label,
+                               '%s out of %d nested block(s) with %d extra operand(s) below a %s value: every jump to %s must be preceded by '
+                               's%s%d=s%s%d (value slot -> result slot of the target)%s; emitted %r'
+                               % (kind, depth, extras, t_, tgt_label, lt, base, lt, src, ' or nothing when they coincide' if not extras else '', tpl.text()),
+                               'branch-carry/' + kind)
+    return n
+
+
 def check_ignore_equivalence(chk, it):
     """every instruction: ignore mode emits nothing, keeps the stack, consumes the same immediates"""
     n = 0
@@ -451,6 +508,7 @@ def run(chk):
     check_locals(chk, it, tabs)
     check_function_body(chk, tus, tabs)
     check_function_sequence(chk)
+    check_branch_family(chk, emit.make_interp(tus), tabs)
     chk.floor('R03.1', 20)
     chk.floor('R03.2', 40)
     chk.floor('R03.3', 400)
